@@ -248,6 +248,9 @@ def parse_operand(s):
         return Operand("move", place=parse_place(s[5:]))
     if s.startswith("const "):
         return Operand("const", const=s[6:].strip())
+    if re.match(r"[A-Za-z_<][^ ]*::[A-Za-z_<{]", s) and "(" not in s.replace("<impl ", "").split("::")[-1]:
+        # a function item used as a value (e.g. `mapv(f32::sqrt)`)
+        return Operand("const", const="fnitem " + s)
     raise ParseError("operand: " + s)
 
 
